@@ -31,6 +31,19 @@ CLAIMED["C01"] = dict(
     technique="bounded-exhaustive input enumeration + deviation-bounded stateless schedule exploration of the instrumented implementation against a reference model",
     design_ref="§4 C01")
 
+CLAIMED["C02"] = dict(
+    category="exploration", engine="vsched",
+    text="Bounded-exhaustive grid on the instrumented engine (deterministic base schedule): every configuration with <=2 leaves (with and without `!`) x every tuple set of <=2 tuples plus named graphs and 5-hop chains x global depth 1..6 x request depth -1..g+2, and fan-outs w-1..w+2 around width w=1..4. Oracles: (a) allowed under any limit implies allowed by the unbounded reference semantics; (b) the answer with (request r, global g) equals the answer of a second registry whose global limit is eff(r,g) with no request depth. Non-trivial = the engine logged a cut.",
+    note="Reference = h/refsem; fail-open cases where the configuration contains `!` and a cut happened are recorded finding KF-C02-1 (coarse class, see DESIGN.md); transport max-depth parsing is C08's part.",
+    technique="bounded-exhaustive enumeration of (config, tuples, query, global depth, request depth, width) against a reference model and a differential oracle between two limit settings",
+    design_ref="§4 C02")
+CLAIMED["C03"] = dict(
+    category="fault_enumeration", engine="vsched",
+    text="For every scenario (all permission expressions with <=2 leaves x 7 tuple graphs) the fault-free check issues N storage calls; every position k=1..N x {transient, persistent} x {generic error, context.DeadlineExceeded} is injected at the storage interface of the instrumented engine, and the transient fault is additionally explored under every schedule with one deviation (failing call reordered against its siblings). Oracle: result is an error or the fault-free result of the same schedule; never allowed when fault-free denied; no result carries an error together with 'allowed' (also per BatchCheck entry).",
+    note="Faults at the Manager/Traverser interface (in-memory store bound to SQL by C01 part B); SQL-statement-level faults are exercised in C05's harness for writes.",
+    technique="exhaustive fault-position enumeration on the implementation under a controlled scheduler, differential against the fault-free run",
+    design_ref="§4 C03")
+
 NOT_YET = "check not built yet in this revision (work in progress; see DESIGN.md §4 for the planned model-checking design)"
 
 
